@@ -1,32 +1,89 @@
 //! Recording implementation of the public `gc_arena::collect::Trace` trait and the registry that
 //! maps allocation addresses back to the pointer ids the test inserted.
 use gc_arena::collect::Trace;
-use gc_arena::{Collect, Gc, GcWeak, Mutation};
+use gc_arena::arena::Root;
+use gc_arena::{Arena, Collect, Gc, GcWeak, Mutation, Rootable};
+use std::cell::{Cell, RefCell};
 use std::collections::HashMap;
+use std::rc::Rc;
 
 /// Allocates the distinct pointers of a case and remembers address -> id.
 pub struct Ptrs<'gc> {
     mc: &'gc Mutation<'gc>,
     pub by_addr: HashMap<usize, usize>,
+    /// weak observers of every allocation that is expected to survive a collection when the value
+    /// is the arena root (everything reachable through strong pointers)
+    observers: Vec<GcWeak<'gc, ()>>,
+}
+
+thread_local! {
+    /// destruction flags of the `DropTok`s handed out by `Ptrs::tok` since the last `survive` began
+    static TOKS: RefCell<Vec<Rc<Cell<bool>>>> = const { RefCell::new(Vec::new()) };
+}
+
+/// A `'static` payload without `Collect` impl (only usable in `require_static` positions) that
+/// records its own destruction.
+pub struct DropTok(Option<Rc<Cell<bool>>>);
+
+impl Drop for DropTok {
+    fn drop(&mut self) {
+        if let Some(f) = &self.0 {
+            f.set(true)
+        }
+    }
 }
 
 impl<'gc> Ptrs<'gc> {
     pub fn new(mc: &'gc Mutation<'gc>) -> Ptrs<'gc> {
-        Ptrs { mc, by_addr: HashMap::new() }
+        Ptrs { mc, by_addr: HashMap::new(), observers: vec![] }
+    }
+    pub fn take_observers(&mut self) -> Vec<GcWeak<'gc, ()>> {
+        std::mem::take(&mut self.observers)
     }
     pub fn mc(&self) -> &'gc Mutation<'gc> {
         self.mc
     }
-    /// a fresh strong pointer with id `id`
+    /// a fresh strong pointer with id `id` (expected to survive when the value is rooted)
     pub fn g(&mut self, id: usize) -> Gc<'gc, u32> {
+        let g = self.g0(id);
+        self.observers.push(GcWeak::erase(Gc::downgrade(g)));
+        g
+    }
+    /// the same below a node that is only weakly reachable (not observed for survival)
+    pub fn g0(&mut self, id: usize) -> Gc<'gc, u32> {
         let g = Gc::new(self.mc, id as u32);
         let prev = self.by_addr.insert(Gc::as_ptr(g) as usize, id);
         assert!(prev.is_none(), "allocation address reused while alive");
         g
     }
-    /// a fresh weak pointer with id `id` (its own allocation)
+    /// `Gc::new(mc, v)` registered with id `id`: a link to another node (`Gc<'gc, Self>`)
+    pub fn adopt<T: Collect<'gc> + 'gc>(&mut self, id: usize, v: T) -> Gc<'gc, T> {
+        let g = self.adopt0(id, v);
+        self.observers.push(GcWeak::erase(Gc::downgrade(g)));
+        g
+    }
+    pub fn adopt0<T: Collect<'gc> + 'gc>(&mut self, id: usize, v: T) -> Gc<'gc, T> {
+        let g = Gc::new(self.mc, v);
+        let prev = self.by_addr.insert(Gc::as_ptr(g) as usize, id);
+        assert!(prev.is_none(), "allocation address reused while alive");
+        g
+    }
+    /// a drop token whose destruction is counted by `survive`
+    pub fn tok(&mut self) -> DropTok {
+        let f = Rc::new(Cell::new(false));
+        TOKS.with(|t| t.borrow_mut().push(f.clone()));
+        DropTok(Some(f))
+    }
+    /// a drop token below a weakly reachable node (its destruction is legitimate)
+    pub fn tok0(&mut self) -> DropTok {
+        DropTok(None)
+    }
+    /// a fresh weak pointer with id `id` (its own allocation, held only weakly)
     pub fn w(&mut self, id: usize) -> GcWeak<'gc, u32> {
-        Gc::downgrade(self.g(id))
+        Gc::downgrade(self.g0(id))
+    }
+    pub fn w0(&mut self, id: usize) -> GcWeak<'gc, u32> {
+        Gc::downgrade(self.g0(id))
     }
     /// a fresh strong pointer to a `Tok` (C16: the pointee carries a drop flag)
     pub fn gt(&mut self, id: usize) -> Gc<'gc, Tok> {
@@ -139,11 +196,64 @@ pub fn show(l: &[(usize, bool)]) -> String {
     format!("[{}]", items.join(","))
 }
 
+/// Result of the end-to-end survival run of a case: the value is the arena root (together with
+/// the weak observers), every other reference is dropped, two full cycles run.
+pub struct Surv {
+    /// allocations reachable from the value through strong pointers
+    pub observed: usize,
+    /// of those, how many had been destructed after the two cycles (must be 0)
+    pub destructed: usize,
+    /// `DropTok` payloads of strongly reachable nodes / how many were destructed (must be 0)
+    pub tokens: usize,
+    pub tokens_dropped: usize,
+    /// an unreferenced allocation made in the same arena was collected (the run is not vacuous)
+    pub garbage_collected: bool,
+}
+
+pub trait HasObs<'gc> {
+    fn observers(&self) -> &[GcWeak<'gc, ()>];
+}
+impl<'gc, T> HasObs<'gc> for (T, Vec<GcWeak<'gc, ()>>) {
+    fn observers(&self) -> &[GcWeak<'gc, ()>] {
+        &self.1
+    }
+}
+
+pub fn survive<R>(build: impl for<'gc> FnOnce(&'gc Mutation<'gc>) -> Root<'gc, R>) -> Surv
+where
+    R: for<'a> Rootable<'a>,
+    for<'a> Root<'a, R>: Collect<'a> + Sized + HasObs<'a>,
+{
+    TOKS.with(|t| t.borrow_mut().clear());
+    let garbage = Rc::new(Cell::new(false));
+    let g2 = garbage.clone();
+    let mut arena = Arena::<R>::new(move |mc| {
+        let _unrooted = Gc::new_static(mc, DropTok(Some(g2)));
+        build(mc)
+    });
+    arena.finish_cycle();
+    arena.finish_cycle();
+    let (observed, destructed) = arena.mutate(|_, root| {
+        let o = root.observers();
+        (o.len(), o.iter().filter(|w| w.is_dropped()).count())
+    });
+    let (tokens, tokens_dropped) = TOKS.with(|t| {
+        let t = t.borrow();
+        (t.len(), t.iter().filter(|f| f.get()).count())
+    });
+    let garbage_collected = garbage.get();
+    drop(arena);
+    Surv { observed, destructed, tokens, tokens_dropped, garbage_collected }
+}
+
 pub struct Case {
     pub name: &'static str,
     pub ty: &'static str,
     pub val: &'static str,
     pub src: &'static str,
     pub nptrs: usize,
-    pub run: for<'gc> fn(&'gc Mutation<'gc>) -> Obs,
+    pub run: Option<for<'gc> fn(&'gc Mutation<'gc>) -> Obs>,
+    pub survive: Option<fn() -> Surv>,
+    /// cases without a finite value: only the NEEDS_TRACE constant
+    pub nt: Option<for<'gc> fn(&'gc Mutation<'gc>) -> bool>,
 }
